@@ -1,4 +1,4 @@
-/- C20 driver: the C19 operations (`compile`, `render`, …) plus `safe`, `exprbytes`, `compileO` -/
+/- C20 driver: the C19 operations (`compile`, `render`, …) plus `safe`, `strict`, `exprbytes`, `compileO` -/
 import TornadoModel.Base.Wire
 import TornadoModel.C19.Drv
 import TornadoModel.C20.Spec
@@ -41,6 +41,17 @@ def handle (toks : List String) : String :=
     | some [ws, ae, entry, files] =>
       match C19.Drv.decWs ws, C19.Drv.decAe ae, entry.cps?, C19.Drv.decSources files with
       | some ws, some ae, some entry, some srcs => ok (C19.Drv.encOutcome true (compileO ⟨ws, ae⟩ srcs entry))
+      | _, _, _, _ => err "bad-arg"
+    | _ => err "bad-arg"
+  | "strict" :: args =>
+    -- the hypothesis of `strict_render_safe`: every file loaded for `entry` is strict
+    match parseArgs args with
+    | some [ws, ae, entry, files] =>
+      match C19.Drv.decWs ws, C19.Drv.decAe ae, entry.cps?, C19.Drv.decSources files with
+      | some ws, some ae, some entry, some srcs =>
+        match loadAll ⟨ws, ae⟩ srcs (fuelFor srcs) [entry] [] with
+        | .ok L => ok [V.ofBool (L.all strictFile)]
+        | .error _ => ok [V.ofBool false]
       | _, _, _, _ => err "bad-arg"
     | _ => err "bad-arg"
   | "exprbytes" :: args =>
